@@ -3,11 +3,13 @@
   {"fatal": msg} means the driver could not interpret the line (never a model verdict).
 -/
 import Driver.C17
+import Driver.C19
 open Lean CR.Drv
 
 def dispatch (prop op : String) (a : Json) : P Json :=
   match prop with
   | "C17" => C17.handle op a
+  | "C19" => C19.handle op a
   | _ => throw s!"unknown property {prop}"
 
 def handleLine (line : String) : String :=
